@@ -194,6 +194,51 @@ func runC15(c *Ctx) {
 		c.Count("consensus-side protocol calls", len(cons))
 		want := []string{"BFT.BeforeTransactionsExecute", "BeforeTransactionsExecute", "VerifyTransaction", "ExecuteTransaction", "AfterTransactionsExecute", "BFT.SetBFTParameters", "BFT.SetGeneratorKeys"}
 		okCons := strings.Join(cons, ",") == strings.Join(want, ",")
+		// both sides demand the same verification verdict before executing a transaction
+		{
+			verdictOf := func(fn *ssa.Function, at func(ff *FuncFacts) []*ssa.BasicBlock) (string, bool) {
+				if fn == nil {
+					return "", false
+				}
+				ff := factsOf(fn)
+				res := ""
+				for _, blk := range at(ff) {
+					found := ""
+					for _, f := range ff.FactsAt(blk) {
+						if f.IsCmp && f.Op.String() == "==" && f.L.Op == "field" && f.L.Sym == "Result" && strings.Contains(f.L.String(), "VerifyTransaction(") && f.R.Op == "const" {
+							found = f.R.Sym
+						}
+					}
+					if found == "" {
+						return "", false
+					}
+					if res != "" && res != found {
+						return "", false
+					}
+					res = found
+				}
+				return res, res != ""
+			}
+			consExec := p.Fn("pkg/consensus.(*stateExecuter).Execute")
+			genVerify := p.Fn("pkg/generator.(*stateExecuter).VerifyTransaction")
+			kC, okC := verdictOf(consExec, func(ff *FuncFacts) []*ssa.BasicBlock {
+				var bs []*ssa.BasicBlock
+				for _, s := range CallsIn(consExec, "iface:labi.ABI.ExecuteTransaction") {
+					bs = append(bs, s.Call.Block())
+				}
+				return bs
+			})
+			kG, okG := verdictOf(genVerify, func(ff *FuncFacts) []*ssa.BasicBlock {
+				var bs []*ssa.BasicBlock
+				for _, r := range Returns(genVerify) {
+					if classifyReturn(ff, r) == RetNil {
+						bs = append(bs, r.Block())
+					}
+				}
+				return bs
+			})
+			c.Require("C15.R4 executer-mirror", "verification verdict", "-", "the generator includes a transaction only under the verdict the validator requires before executing it (a block with a pending/invalid transaction fails the node's own validation)", okC && okG && kC == kG, fmt.Sprintf("validator requires Result == %s (%v); generator accepts under Result == %s (%v)", kC, okC, kG, okG))
+		}
 		c.Require("C15.R4 executer-mirror", "consensus-side sequence", "-", "validator side: BFT hook → before → verify → execute → after → set next validators", okCons, strings.Join(cons, " → "))
 		// generator side must contain every step of the consensus side, in order
 		i := 0
